@@ -18,10 +18,16 @@ import (
 	"time"
 )
 
-const (
-	repoDir = "/repo"
-	goBin   = "go1.26.8"
-)
+const goBin = "go1.26.8"
+
+// repoDir is always /repo for the registered checks; VERIF_REPO lets the author point the driver at a
+// scratch worktree (seeded-change experiments) without touching /repo.
+var repoDir = func() string {
+	if v := os.Getenv("VERIF_REPO"); v != "" {
+		return v
+	}
+	return "/repo"
+}()
 
 // verifDir is the tree the driver works in: the current directory when it looks like a /verif
 // checkout (background runs from a snapshot), else /verif.
@@ -71,6 +77,8 @@ func run(dir string, env []string, name string, args ...string) (string, error) 
 }
 
 // build instruments the current /repo tree and builds the harness test binary.
+var modArgs []string
+
 func build(scratch, mutate string) (bin string) {
 	env := goEnv()
 	instr := filepath.Join(scratch, "instrument")
@@ -87,14 +95,25 @@ func build(scratch, mutate string) (bin string) {
 		trouble("instrumenting %s failed:\n%s", repoDir, out)
 	}
 	// go.sum of the harness module must cover the repo's dependencies
-	if b, err := os.ReadFile(filepath.Join(repoDir, "go.sum")); err == nil {
+	if b, err := os.ReadFile(filepath.Join(repoDir, "go.sum")); err == nil && repoDir == "/repo" {
 		cur, _ := os.ReadFile(filepath.Join(simDir, "go.sum"))
 		if string(cur) != string(b) {
 			_ = os.WriteFile(filepath.Join(simDir, "go.sum"), b, 0o644)
 		}
 	}
 	bin = filepath.Join(scratch, "harness.test")
-	if out, err := run(simDir, env, goBin, "test", "-c", "-vet=off", "-overlay", filepath.Join(ov, "overlay.json"), "-o", bin, "./harness"); err != nil {
+	modArgs = nil
+	if repoDir != "/repo" {
+		gm, _ := os.ReadFile(filepath.Join(simDir, "go.mod"))
+		mf := filepath.Join(scratch, "go.mod")
+		_ = os.WriteFile(mf, []byte(strings.Replace(string(gm), "=> /repo", "=> "+repoDir, 1)), 0o644)
+		gs, _ := os.ReadFile(filepath.Join(repoDir, "go.sum"))
+		_ = os.WriteFile(filepath.Join(scratch, "go.sum"), gs, 0o644)
+		modArgs = []string{"-modfile=" + mf}
+	}
+	a := append([]string{"test", "-c", "-vet=off"}, modArgs...)
+	a = append(a, "-overlay", filepath.Join(ov, "overlay.json"), "-o", bin, "./harness")
+	if out, err := run(simDir, env, goBin, a...); err != nil {
 		trouble("building the harness against the instrumented tree failed (does /repo compile?):\n%s", out)
 	}
 	return bin
@@ -402,7 +421,11 @@ func runProperty(prop, tier string, seed uint64, runs int, mutate, scratch strin
 	buildS := time.Since(start).Seconds()
 
 	replayDir := filepath.Join(verifDir, "replays", prop)
-	if mutate != "" {
+	if repoDir != "/repo" {
+		writeEvidence = false
+		replayDir = filepath.Join(scratchBase(), "kmipverif-experiments", filepath.Base(repoDir), prop)
+		os.RemoveAll(replayDir)
+	} else if mutate != "" {
 		replayDir = filepath.Join(scratch, "replays")
 	} else {
 		// stale replay files of earlier runs of this property are removed; seeded/ and committed ones live elsewhere
@@ -693,7 +716,9 @@ func main() {
 func raceStep(scratch string, seed uint64) (int, string) {
 	env := append(goEnv(), "CGO_ENABLED=1")
 	bin := filepath.Join(scratch, "harness.race.test")
-	if out, err := run(simDir, env, goBin, "test", "-c", "-race", "-vet=off", "-overlay", filepath.Join(scratch, "ov", "overlay.json"), "-o", bin, "./harness"); err != nil {
+	ra := append([]string{"test", "-c", "-race", "-vet=off"}, modArgs...)
+	ra = append(ra, "-overlay", filepath.Join(scratch, "ov", "overlay.json"), "-o", bin, "./harness")
+	if out, err := run(simDir, env, goBin, ra...); err != nil {
 		trouble("building the race-detector binary failed:\n%s", tail(out, 40))
 	}
 	n := 8
